@@ -389,6 +389,10 @@ def tld_labels(table, tier, rng):
         if tier != "quick":
             for k in range(len(t)):
                 out.append(t[:k] + (b"q" if t[k:k + 1] != b"q" else b"z") + t[k + 1:])
+    # an A-label is its whole spelling: the same tail behind another prefix is another (unlisted) label; so is the tail alone
+    for t in table:
+        if t.startswith(b"xn--"):
+            out += [b"ab--" + t[4:], b"zz--" + t[4:], b"XN-" + t[4:], t[4:], b"x--" + t[4:], b"xn-" + t[4:], b"xxn--" + t[4:]]
     for _ in range(500 if tier == "quick" else 5000):
         out.append(bytes(rng.choice(b"abcdefghijklmnopqrstuvwxyz") for _ in range(rng.randint(2, 8))))
     # bytes that a sloppy case fold (c | 0x20, c ^ 0x20, c & 0x5f) would alias to a listed name
